@@ -416,7 +416,7 @@ def check_slice_agreement(ctx):
     f = m.func("_array_types._MetaAbstractArray._check_shape")
     ctx.saw(f)
     n = 0
-    for c in [x for x in ast.walk(f.node) if isinstance(x, ast.Call) and norm(x.func) == "_check_dims"]:
+    for c in [x for x in ast.walk(f.node) if m.is_call_to(f, x, "_array_types._check_dims")]:
         n += 1
         a0, a1 = c.args[0], c.args[1]
         s0 = norm(a0.slice) if isinstance(a0, ast.Subscript) else "<all>"
@@ -432,7 +432,7 @@ def check_slice_agreement(ctx):
     ctx.counters["check_dims_calls"] = n
     ctx.floor("C01.4", "check_dims_calls", 3)
     # the multi-axis segment: every slice of the shape that is not an argument of _check_dims
-    arg_ids = {id(a) for c in ast.walk(f.node) if isinstance(c, ast.Call) and norm(c.func) == "_check_dims" for a in c.args}
+    arg_ids = {id(a) for c in ast.walk(f.node) if m.is_call_to(f, c, "_array_types._check_dims") for a in c.args}
     segs = [x for x in ast.walk(f.node) if isinstance(x, ast.Subscript) and norm(x.value).endswith(".shape") and isinstance(x.slice, ast.Slice) and id(x) not in arg_ids]
     if len(segs) < 2:
         raise AnalysisError("C01.4: multi-axis segment slices not found")
